@@ -127,6 +127,13 @@ func main() {
 			}
 		}()
 		c, err := loadRepo(repoDir)
+		for attempt := 0; err != nil && attempt < 2; attempt++ {
+			// the go command is run underneath (go list); under heavy parallel load it has been seen to fail
+			// transiently - a failure that is real (type errors, missing files) fails again
+			fmt.Fprintf(os.Stderr, "load failed (%v); retrying\n", err)
+			time.Sleep(3 * time.Second)
+			c, err = loadRepo(repoDir)
+		}
 		if err != nil {
 			r.Fail("CHECKER", "load", "", "checker-failure", "cannot load repository: "+err.Error())
 			return r.finish(start, nil)
